@@ -15,9 +15,6 @@
 package main
 
 import (
-	"os"
-	"runtime/pprof"
-
 	"verif/internal/harness"
 )
 
@@ -25,11 +22,6 @@ func main() { harness.Main("C07", "exploration", run) }
 
 func run(e *harness.Env) {
 	defer cleanupScratch()
-	if p := os.Getenv("C07_PROF"); p != "" {
-		f, _ := os.Create(p)
-		pprof.StartCPUProfile(f)
-		defer pprof.StopCPUProfile()
-	}
 	e.Rule = "full product per sub-space: (1) encoding x code x route; (2) CMap program (sequence of <=3 entries over 9 kinds) x code width x formatting x sectioning x observed entry x route, " +
 		"plus precedence configurations; (3) 256-code-point blocks of Unicode scalar values x byte order x API, pairs/triples over a 12-value boundary alphabet; " +
 		"(4) font configuration x first byte (each case covers the 256 second bytes). distinct = distinct case descriptors; non-trivial = not an identity mapping of an ASCII code / not the empty string"
